@@ -7,7 +7,7 @@ for g in "var lit big err true false none nil arr0".split():
     ARITY[g] = 0
 for g in "lam1 lam2 lam11 eff effm prx pry some".split():
     ARITY[g] = 1
-for g in "add sub mul div let letu app1 papp lt eq and or mkr upd mkp mtup mpart cons arr2 idx".split():
+for g in "add sub mul div let letu app1 papp lt eq and or mkr upd mkp mtup mrec mpart cons arr2 idx".split():
     ARITY[g] = 2
 for g in "if app2 mopt recf".split():
     ARITY[g] = 3
@@ -92,7 +92,9 @@ def _e(o, n, depth, ctx):
             op = "#Int" + op
         o.w("("); E(k[0]); o.w(" %s " % op); E(k[1]); o.w(")"); return
     if g == "if":
-        o.w("(if "); E(k[0]); o.w(" then "); E(k[1]); o.w(" else "); E(k[2]); o.w(")"); return
+        # `then` and `else` open layout blocks at the first token of the branch (parser/src/layout.rs): a continuation
+        # line of the branch must stay to the right of that column even after the parentheses it started with close
+        o.w("(if "); E(k[0]); o.w(" then "); _e(o, k[1], depth, max(ctx, o.col)); o.w(" else "); _e(o, k[2], depth, max(ctx, o.col)); o.w(")"); return
     # a binding's right-hand side is a layout block which starts at its first token: everything inside it that
     # continues on later lines must be indented deeper than that column
     if g == "let":
@@ -155,12 +157,14 @@ def _e(o, n, depth, ctx):
         o.w("["); E(k[0]); o.w(", "); E(k[1]); o.w("]"); return
     if g == "idx":
         o.w("(array.index "); E(k[0]); o.w(" "); E(k[1]); o.w(")"); return
-    if g in ("mtup", "mopt", "mpart", "mlit", "mlist", "mlistd", "mopt3"):
+    if g in ("mtup", "mrec", "mopt", "mpart", "mlit", "mlist", "mlistd", "mopt3"):
         o.w("(match "); E(k[0]); o.w(" with")
         ind = ctx + 4
         d1, d2 = depth + 1, depth + 2
         if g == "mtup":
             alts = [("(v%d, v%d)" % (d1, d2), k[1], depth + 2)]
+        elif g == "mrec":
+            alts = [("{ x = v%d, y = v%d }" % (d1, d2), k[1], depth + 2)]
         elif g == "mopt":
             alts = [("Some v%d" % d1, k[1], depth + 1), ("None", k[2], depth)]
         elif g == "mpart":
@@ -184,9 +188,11 @@ def _e(o, n, depth, ctx):
         c = max(ctx, o.col)
         lt = "#Int<" if _PRIM[0] else "<"
         o.w("if (v%d %s 1) || (3 %s v%d) then " % (nn, lt, lt, nn))
-        _e(o, k[0], depth + 2, c)
-        o.w(" else (let v%d = v%d (v%d %s 1) in " % (rr, f, nn, "#Int-" if _PRIM[0] else "-"))
-        _e(o, k[1], depth + 3, c)
+        _e(o, k[0], depth + 2, max(c, o.col))
+        o.w(" else ")
+        c2 = max(c, o.col)
+        o.w("(let v%d = v%d (v%d %s 1) in " % (rr, f, nn, "#Int-" if _PRIM[0] else "-"))
+        _e(o, k[1], depth + 3, c2)
         o.w(") in ")
         _e(o, k[2], depth + 1, ctx)
         o.w(")"); return
@@ -259,7 +265,7 @@ def write_cfg(name, size, prods, roots=("I",), scope=3, emit=True, mutations=0):
 
 FOCUS = {
     "calls": "var lit add if let app1 app2 papp lam1 lam2 lam11 eff true lt recf err".split(),
-    "data": "var lit add let mkr upd prx pry mkp mtup none some mopt mopt3 mpart mlit nil cons mlist mlistd arr0 arr2 idx eff err".split(),
+    "data": "var lit add let mkr upd prx pry mkp mtup mrec none some mopt mopt3 mpart mlit nil cons mlist mlistd arr0 arr2 idx eff err".split(),
     "arith": "var lit big add sub mul div if lt eq and or true false let letu eff effm err".split(),
     "effects": "var lit add let letu eff effm app1 lam1 papp lam2 mkr prx if true and or err div big mul".split(),
 }
@@ -321,7 +327,7 @@ def dead_lets(p):
             walk(k[0], depth + 1)
         elif g == "lam2":
             walk(k[0], depth + 2)
-        elif g == "mtup":
+        elif g in ("mtup", "mrec"):
             walk(k[0], depth); walk(k[1], depth + 2)
         elif g in ("mopt",):
             walk(k[0], depth); walk(k[1], depth + 1); walk(k[2], depth)
